@@ -19,6 +19,8 @@ def na(i, reason): NA[i]=reason
 
 exec(open(os.path.join(os.path.dirname(__file__),"manifest_table.py")).read())
 
+for p in list(NA):
+    if p in CHECKS: del NA[p]
 props=[json.loads(l)["id"] for l in open("/verif/properties.jsonl")]
 checks=[]
 for p in props:
